@@ -104,23 +104,24 @@ def lenInt32 (n : Nat) : Int :=
 
 /-! ### RoundRobin -/
 
+/-- `RoundRobin`: `index` = position in the partition list of the partition the current chunk goes to, `count` =
+messages of that chunk routed so far (Go `int`s; `index` is never negative).  (Since the fix of finding D10; the
+earlier call-counter version is `RoundRobinLegacy` below.) -/
 structure RoundRobin where
   chunkSize : Int          -- `ChunkSize int`
-  counter : UInt32         -- `counter uint32`
+  index : Nat              -- `index int`
+  count : Int              -- `count int`
   deriving Repr, DecidableEq
 
-/-- `uint32(rr.ChunkSize)` for a Go `int` (two's complement truncation). -/
-def chunkU32 (c : Int) : UInt32 := UInt32.ofNat (c % 4294967296).toNat
+/-- a balancer nobody has called yet -/
+def RoundRobin.fresh (chunk : Int) : RoundRobin := ⟨chunk, 0, 0⟩
 
-/-- `(*RoundRobin).balance`.  `none` = Go would panic (empty slice, or division by zero when
-`uint32(ChunkSize) = 0`). -/
+/-- `(*RoundRobin).balance`.  `none` = Go would panic (empty partition list). -/
 def RoundRobin.balance (rr : RoundRobin) (parts : List Int) : RoundRobin × Option Int :=
   let rr := if rr.chunkSize < 1 then { rr with chunkSize := 1 } else rr
-  let length := parts.length
-  let d := chunkU32 rr.chunkSize
-  if d = 0 ∨ length = 0 then (rr, none) else
-  let offset := (rr.counter / d).toNat
-  ({ rr with counter := rr.counter + 1 }, parts[offset % length]?)
+  let rr := if rr.count ≥ rr.chunkSize then { rr with count := 0, index := rr.index + 1 } else rr
+  let rr := if rr.index ≥ parts.length then { rr with index := 0 } else rr
+  ({ rr with count := rr.count + 1 }, parts[rr.index]?)
 
 /-- A run of calls with a fixed partition list; returns the results in call order. -/
 def RoundRobin.run (rr : RoundRobin) (parts : List Int) : Nat → RoundRobin × List (Option Int)
@@ -128,6 +129,39 @@ def RoundRobin.run (rr : RoundRobin) (parts : List Int) : Nat → RoundRobin × 
   | n + 1 =>
     let (rr', x) := rr.balance parts
     let (rr'', xs) := RoundRobin.run rr' parts n
+    (rr'', x :: xs)
+
+/-- where a balancer is after `calls` calls with an `n`-partition list (what the test hook `VerifSetRoundRobinCalls`
+sets): normalised form, `count < chunk` -/
+def RoundRobin.placed (chunk : Int) (calls n : Nat) : RoundRobin :=
+  let c := if chunk < 1 then 1 else chunk.toNat
+  ⟨chunk, (calls / c) % n, Int.ofNat (calls % c)⟩
+
+/-! #### the version before the fix of D10: a `uint32` count of the calls made -/
+
+structure RoundRobinLegacy where
+  chunkSize : Int          -- `ChunkSize int`
+  counter : UInt32         -- `counter uint32`
+  deriving Repr, DecidableEq
+
+/-- `uint32(rr.ChunkSize)` for a Go `int` (two's complement truncation). -/
+def chunkU32 (c : Int) : UInt32 := UInt32.ofNat (c % 4294967296).toNat
+
+/-- the former `(*RoundRobin).balance`.  `none` = Go would panic (empty slice, or division by zero when
+`uint32(ChunkSize) = 0`). -/
+def RoundRobinLegacy.balance (rr : RoundRobinLegacy) (parts : List Int) : RoundRobinLegacy × Option Int :=
+  let rr := if rr.chunkSize < 1 then { rr with chunkSize := 1 } else rr
+  let length := parts.length
+  let d := chunkU32 rr.chunkSize
+  if d = 0 ∨ length = 0 then (rr, none) else
+  let offset := (rr.counter / d).toNat
+  ({ rr with counter := rr.counter + 1 }, parts[offset % length]?)
+
+def RoundRobinLegacy.run (rr : RoundRobinLegacy) (parts : List Int) : Nat → RoundRobinLegacy × List (Option Int)
+  | 0 => (rr, [])
+  | n + 1 =>
+    let (rr', x) := rr.balance parts
+    let (rr'', xs) := RoundRobinLegacy.run rr' parts n
     (rr'', x :: xs)
 
 /-! ### randomBalancer -/
